@@ -297,6 +297,8 @@ def run_values(rep, r, wd, quick):
                 ops = ["Call", "Forget", "Call", "Call", "Memento", "Forget", "Forget", "Call"]     # forget straight after the first call
             if (i + j) % 3 == 1 or (c.get("budget") == 64 and i % 2 == 0):
                 ops = [("ForgetAll" if o == "Forget" else o) for o in ops]
+            if term.get("cls") == "LazyErr":
+                ops = ["Call", "Unload", "Call", "Unload", "Call", "Memento", "Forget", "Call", "Unload", "Call"]
             if term["t"] == "ovr":
                 # (the key is occupied by another call's result before this call publishes its own, and again later)
                 ops = ["Disturb", "Call", "Call", "Reopen", "Call", "Memento", "Forget", "Disturb", "Call", "Reopen", "Call", "Disturb", "Call"]
